@@ -163,6 +163,8 @@ fn check_classes(pattern: &str, regex_type: RegexType) -> Result<(), Box<dyn Err
             '[' => {
                 // The members: a "]" first (after "^") is one of them.
                 let mut members = rest.strip_prefix('^').unwrap_or(rest);
+                // (a "-" first is a member too - unless that "]" stands before it)
+                let mut first_members = !members.starts_with(']');
                 members = members.strip_prefix(']').unwrap_or(members);
                 loop {
                     let Some(i) = members.find(['[', ']']) else {
@@ -200,7 +202,20 @@ fn check_classes(pattern: &str, regex_type: RegexType) -> Result<(), Box<dyn Err
                             // (it names one character: no other collating
                             // elements are known)
                             Some(end) if inner[1..1 + end].chars().count() == 1 => {
-                                &inner[1 + end + 2..]
+                                // An equivalence class is no end point of a range:
+                                // neither behind a "-" that has a start before it
+                                // nor before one that has an end behind it.
+                                let after = &inner[1 + end + 2..];
+                                let before = &members[..i];
+                                if delim == '='
+                                    && (before.ends_with('-') && !(first_members && before == "-")
+                                        || after.starts_with('-') && !after.starts_with("-]"))
+                                {
+                                    return Err(From::from(format!(
+                                        "Invalid range end in regular expression {pattern:?}"
+                                    )));
+                                }
+                                after
                             }
                             Some(_) => {
                                 return Err(From::from(format!(
@@ -215,6 +230,7 @@ fn check_classes(pattern: &str, regex_type: RegexType) -> Result<(), Box<dyn Err
                         },
                         _ => inner,
                     };
+                    first_members = false;
                 }
             }
             _ => {}
